@@ -1076,10 +1076,13 @@ pub fn c01_subs() -> Vec<Box<dyn Sub>> {
             quick: 10_000,
             thorough: 300_000,
             strat: Box::new(|| {
-                crate::genreg::reg_wf(16)
+                // mostly small random graphs; one case in sixteen is a registry with a reference
+                // path of 65-200 entries under a sparse mask (see C10 `retain_deep`)
+                prop_oneof![15 => crate::genreg::reg_wf(16).boxed(), 1 => crate::genreg::reg_deep(200).boxed()]
                     .prop_flat_map(|m| {
                         let n = m.types.len();
-                        (Just(m), vec(any::<bool>(), n..=n))
+                        let mask = if n > 16 { vec(prop::bool::weighted(0.02), n..=n).boxed() } else { vec(any::<bool>(), n..=n).boxed() };
+                        (Just(m), mask)
                     })
                     .prop_map(|(m, mask)| crate::p_reg::C10Case { m, mask, outside: false })
                     .boxed()
@@ -1093,6 +1096,9 @@ pub fn c01_subs() -> Vec<Box<dyn Sub>> {
                 wf_lib(&PortableRegistry::decode(&mut &enc[..]).map_err(|e| e.to_string())?)?;
                 if out.types.len() >= 2 && out.types.iter().any(|t| !t.ty.refs().is_empty()) {
                     obs.nontrivial(&("retain", &enc));
+                }
+                if c.m.types.len() > 64 {
+                    obs.class("retain_input/path_of_65_or_more_entries");
                 }
                 if obs.want_sample() {
                     obs.sample(json!({"retain_input_entries": c.m.types.len(), "mask": c.mask, "output_entries": out.types.len()}));
